@@ -28,8 +28,10 @@ def run(ctx):
     else:
         extra = []
     # MC + schedule generation: worker pool interleavings
-    ctx.model_check("evm/MCParallelExec", "evm/MCParallelSched", timeout=ctx.pick(1500, 3600), name="MCParallelSched", workers=4,
-                    coverage=ctx.thorough)
+    ctx.model_check("evm/MCParallelExec", ctx.pick("evm/MCParallelSched", "evm/MCParallelSchedThorough"), timeout=ctx.pick(1500, 3600),
+                    name="MCParallelSched", workers=4, coverage=ctx.thorough)
+    if ctx.thorough:
+        ctx.model_check("evm/MCParallelExec", "evm/MCParallelSchedWide", timeout=3600, name="MCParallelSchedWide", workers=6)
     scheds = []
     for n in ctx.pick((2, 3), (2, 3, 4)):
         r = ctx.model_check("evm/MCParallelExec", "evm/MCParallelSchedEmit%d" % n, tags=("SCHED",), timeout=ctx.pick(1500, 3600),
@@ -50,7 +52,7 @@ def run(ctx):
         s3, _ = ctx.drive(drv, ["-mode", "cases", "-in", xp, "-sched", sp, "-trace", t3], name="c33-cases-n3", timeout=5400)
         traces.append((t3, s3))
     t2 = os.path.join(ctx.scratch, "random.ndjson")
-    s2, _ = ctx.drive(drv, ["-mode", "random", "-trace", t2, "-blocks", ctx.pick(3, 12), "-txs", ctx.pick(8, 14)],
+    s2, _ = ctx.drive(drv, ["-mode", "random", "-sched", sp, "-trace", t2, "-blocks", ctx.pick(3, 12), "-txs", ctx.pick(8, 14)],
                       name="c33-random", timeout=ctx.pick(900, 5400))
     traces.append((t2, s2))
     for tp, s in traces:
